@@ -307,6 +307,9 @@ class Check:
                         res["distinct_nontrivial"] += 1
                 if model != impl and model != "-nomodel-":
                     res["tie_mismatch"].append({"line": i, "cmd": cmd, "args": args, "impl": impl, "model": model, "oracle": oracle})
+                if cmd == "history" and "+residue[" in impl:
+                    # C16 on sequential histories: the harness listed the real directory at an idle point
+                    oracle = "bad: residue at an idle point: " + impl[impl.index("+residue["):].split("^")[0]
                 if oracle.startswith("bad"):
                     res["oracle_bad"].append({"line": i, "cmd": cmd, "args": args, "impl": impl, "model": model, "oracle": oracle})
         return res
